@@ -161,6 +161,10 @@ func (s *Service) OnExecute(ctx context.Context, senderID uint64, account string
 			if err != nil {
 				return errors.Wrap(err, "failed to send contribution")
 			}
+			if len(recipientVVec) != int(generation.threshold) {
+				log.Warn().Int("entries", len(recipientVVec)).Uint32("threshold", generation.threshold).Msg("Contribution verification vector has incorrect length")
+				return fmt.Errorf("invalid contribution from %d", id)
+			}
 			if !verifyContribution(generation.id, recipientSecret, recipientVVec) {
 				log.Warn().Msg("Contribution invalid")
 				return fmt.Errorf("invalid contribution from %d", id)
@@ -296,6 +300,10 @@ func (s *Service) OnContribute(ctx context.Context,
 		return bls.SecretKey{}, nil, err
 	}
 
+	if len(vVec) != int(generation.threshold) {
+		log.Warn().Uint64("sender", senderID).Str("account", account).Int("entries", len(vVec)).Uint32("threshold", generation.threshold).Msg("Received contribution verification vector with incorrect length")
+		return bls.SecretKey{}, nil, fmt.Errorf("invalid contribution from %d", senderID)
+	}
 	if !verifyContribution(generation.id, secret, vVec) {
 		log.Warn().Uint64("sender", senderID).Str("account", account).Msg("Received invalid contribution")
 		return bls.SecretKey{}, nil, fmt.Errorf("invalid contribution from %d", senderID)
